@@ -137,6 +137,47 @@ IsTie(g, d, s) == IsTieWith(g, d, s, ArgMin(g, d, s)[2])
 \* the sample that is exactly the point at position p
 PointSample(g, d, p) == IF IsLattice(g) THEN <<d * PX(g, p), d * PY(g, p)>> ELSE <<d * (p - 1), 2>>
 
+(* ------------------------- detection at extreme scale ratios (lattice kinds) ----------------------- *)
+\* A SCALED sample is <<x0, x1, ex, y0, y1, ey>>:  x = x0 + x1*10^ex,  y = y0 + y1*10^ey  lattice units (integers
+\* x0, x1, y0, y1; exponents from a list whose members are pairwise equal or at least 7 apart).  It reaches
+\* samples 1e-200 from a decision boundary next to a quadrature component of 1e100 - far outside 32-bit
+\* integers - because the comparison of two distances is LINEAR in the sample:
+\*     |s-p|^2 - |s-q|^2 = (|p|^2 - |q|^2) - 2 x (px - qx) - 2 y (py - qy)
+\* i.e. a sum of at most three terms  coef * 10^exp  with |coef| < 10^6.  Terms of equal exponent are added; the
+\* sign of the sum is the sign of the non-zero coefficient of the LARGEST exponent (the others together are below
+\* 2 * 10^6 * 10^(e-7) < 10^e): exact, no rounding anywhere.
+DiffTerms(g, s, p, q) ==
+  LET dx == g.cx[p] - g.cx[q]  dy == g.cy[p] - g.cy[q]
+      c0 == g.cx[p] * g.cx[p] + g.cy[p] * g.cy[p] - g.cx[q] * g.cx[q] - g.cy[q] * g.cy[q] - 2 * s[1] * dx - 2 * s[4] * dy
+  IN  << <<c0, 0>>, <<-2 * s[2] * dx, s[3]>>, <<-2 * s[5] * dy, s[6]>> >>
+CoefAt(ts, e) == FoldSet(LAMBDA i, acc : IF ts[i][2] = e THEN acc + ts[i][1] ELSE acc, 0, DOMAIN ts)
+SignTerms(ts) ==
+  LET es == {ts[i][2] : i \in DOMAIN ts}
+      nz == {e \in es : CoefAt(ts, e) # 0}
+  IN  IF nz = {} THEN 0
+      ELSE LET top == CHOOSE e \in nz : \A f \in nz : f <= e IN Sgn(CoefAt(ts, top))
+\* < 0: p is nearer than q
+SignDiff(g, s, p, q) == SignTerms(DiffTerms(g, s, p, q))
+\* the regime in which the dominance argument is valid
+ScaledRegime(g, s, exps) ==
+  /\ s[3] \in exps /\ s[6] \in exps /\ 0 \in exps
+  /\ \A e \in exps : \A f \in exps : e = f \/ e - f >= 7 \/ f - e >= 7
+  /\ \A v \in {s[1], s[2], s[4], s[5]} : v \in -999..999
+  /\ 2 * 999 * 2 * (g.lx + g.ly) + 4 * (g.lx * g.lx + g.ly * g.ly) < 300000
+ArgMinScaled(g, s) ==      \* <<a minimiser, number of minimisers>>
+  FoldSet(LAMBDA p, acc : IF acc[1] = 0 THEN <<p, 1>>
+                          ELSE LET sg == SignDiff(g, s, p, acc[1]) IN
+                               IF sg < 0 THEN <<p, 1>> ELSE IF sg = 0 THEN <<acc[1], acc[2] + 1>> ELSE acc,
+          <<0, 0>>, Pos(g))
+NearestScaled(g, s) == LET a == ArgMinScaled(g, s) IN IF a[2] = 1 THEN a[1] ELSE 0
+IsNearestScaled(g, s, p) == \A q \in Pos(g) : q = p \/ SignDiff(g, s, p, q) < 0
+IsTieScaled(g, s) == \E p \in Pos(g) : /\ \A q \in Pos(g) : SignDiff(g, s, p, q) <= 0
+                                       /\ \E q \in Pos(g) \ {p} : SignDiff(g, s, p, q) = 0
+\* on plain integer samples the scaled comparison is the integer metric (cross-check of the two oracles)
+ScaledLemma(g) == \A x \in (-(g.lx + 1))..(g.lx + 1) : \A y \in (-(g.ly + 1))..(g.ly + 1) :
+                     /\ NearestScaled(g, <<x, 0, 0, y, 0, 0>>) = Nearest(g, 1, <<x, y>>)
+                     /\ NearestScaled(g, <<0, x, 0, 0, y, 0>>) = Nearest(g, 1, <<x, y>>)
+
 (* ------------------------------ error-rate parameters (C16) -------------------------------- *)
 \* Derived from a TABLE (what the modulator emits) and its scale.  With noise variance N0 = 1/snr
 \* (sigma^2 = 1/(2 snr) per real dimension) a decision boundary at distance dmin/2 is crossed
